@@ -354,6 +354,9 @@ def _coq_rank1(cov, Pn, a, wg, R, rng):
 
 
 # ----------------------------------------------------------------------------- BAN
+_BN = [0]
+
+
 def make_ban(rng, tier, idx):
     D = int(rng.integers(2, 9))
     nlead = int(rng.choice([0, 1, 1, 2, 3]))
@@ -365,6 +368,11 @@ def make_ban(rng, tier, idx):
         w[tuple(0 for _ in lead)] = 0       # a zero vector: the `where=denominator != 0` branch
     elif r < 0.3:
         w = w.real.astype(float)            # real-valued input (e.g. the unit vectors of 'chN')
+    _BN[0] += 1
+    if _BN[0] % 4 == 0:
+        w = w * 1e-9 / max(np.abs(w).max(), 1e-300)          # a tiny probe vector: w^H Phi_nn w far below machine epsilon
+    elif _BN[0] % 4 == 2:
+        Pn = Pn * 1e-18                                       # a very quiet noise PSD
     s = complex(10.0 ** rng.uniform(-3, 3) * np.exp(2j * np.pi * rng.random()))
     Px = rand_psd(rng, lead, D, 'full', 1.0)
     rp = {'layout': str(rng.choice(['C', 'C', 'F', 'Fw'])), 'fn': 'ban', 'w': w, 'Pn': Pn, 'Px': Px, 's': s}
